@@ -1448,6 +1448,11 @@ val api_mk_move : n -> n -> piece option -> move
 val api_search :
   n -> nat -> nat -> board -> ((move option * score) * n) * bool
 
+val tf_rep : nat -> board -> threefold
+
+val api_search_tf :
+  n -> nat -> nat -> nat -> board -> ((move option * score) * n) * bool
+
 val api_nat_of_N : n -> nat
 
 val api_score_neg2 : score -> score
